@@ -78,6 +78,7 @@ struct State {
 }
 
 thread_local! {
+    static ON_DEALLOC: Cell<Option<fn(usize, usize)>> = const { Cell::new(None) };
     static WINDOW: Cell<bool> = const { Cell::new(false) };
     static TID: Cell<u32> = const { Cell::new(0) };
     static ST: UnsafeCell<State> = const { UnsafeCell::new(State {
@@ -225,6 +226,9 @@ unsafe impl GlobalAlloc for VAlloc {
         .unwrap_or(false);
         if !handled {
             System.dealloc(ptr, layout)
+        } else if let Ok(Some(cb)) = ON_DEALLOC.try_with(|c| c.get()) {
+            // outside the state borrow, window closed: the callback may allocate (from System)
+            suspend(|| cb(ptr as usize, layout.size()));
         }
     }
     unsafe fn alloc_zeroed(&self, layout: Layout) -> *mut u8 {
@@ -281,6 +285,11 @@ pub fn reset() {
     });
     WINDOW.with(|w| w.set(false));
     TID.with(|t| t.set(0));
+}
+
+/// Callback invoked after every arena deallocation (address, size). Must not unwind.
+pub fn set_on_dealloc(cb: Option<fn(usize, usize)>) {
+    let _ = ON_DEALLOC.try_with(|c| c.set(cb));
 }
 
 pub fn set_tid(t: u32) {
